@@ -114,6 +114,13 @@ impl BBSplusPoKSignature {
         let D = parse_g1_projective(&bytes[96..144])
             .map_err(|_| Error::InvalidProofOfKnowledgeSignature)?;
 
+        if Abar == G1Projective::IDENTITY
+            || Bbar == G1Projective::IDENTITY
+            || D == G1Projective::IDENTITY
+        {
+            return Err(Error::InvalidProofOfKnowledgeSignature);
+        }
+
         let e_cap = Scalar::from_bytes_be(&bytes[144..176])
             .map_err(|_| Error::InvalidProofOfKnowledgeSignature)?;
         let r1_cap = Scalar::from_bytes_be(&bytes[176..208])
@@ -874,6 +881,15 @@ where
     let R = disclosed_indexes.len();
 
     let L = U + R;
+
+    if proof.Abar == G1Projective::IDENTITY
+        || proof.Bbar == G1Projective::IDENTITY
+        || proof.D == G1Projective::IDENTITY
+    {
+        return Err(Error::PoKSVerificationError(
+            "proof contains the identity point".to_owned(),
+        ));
+    }
 
     for &i in disclosed_indexes {
         if i > L - 1 {
